@@ -67,10 +67,14 @@ def build(case):
         mods["Main"] = "Main DEFINITIONS AUTOMATIC TAGS ::= BEGIN\n%s\n%s\nEND\n" % ("\n".join(defs), body)
     else:
         imp = ""
+        oid = {"sibOid": " { iso(1) lib(5) }", "decoy": " { iso(1) lib(5) }", "kinShort": " { iso(1) lib(5) sub(2) }", "kinLong": " { iso(1) lib(5) }"}.get(p, "")
         if refs and neg != "unimported":
-            imp = "IMPORTS %s FROM Lib%s;\n" % (", ".join(names[s] for s in refs), " { iso(1) lib(5) }" if p in ("sibOid", "decoy") else "")
+            imp = "IMPORTS %s FROM Lib%s;\n" % (", ".join(names[s] for s in refs), oid)
         mods["Main"] = "Main DEFINITIONS AUTOMATIC TAGS ::= BEGIN\n%s%s\nEND\n" % (imp, body)
-        mods["Lib"] = "Lib%s DEFINITIONS AUTOMATIC TAGS ::= BEGIN\n%s\nPad ::= BOOLEAN\nEND\n" % (" { iso(1) lib(5) }" if p in ("sibOid", "decoy") else "", "\n".join(defs))
+        mods["Lib"] = "Lib%s DEFINITIONS AUTOMATIC TAGS ::= BEGIN\n%s\nPad ::= BOOLEAN\nEND\n" % (oid, "\n".join(defs))
+        if p in ("kinShort", "kinLong"):
+            mods["Kin"] = "Kin%s DEFINITIONS AUTOMATIC TAGS ::= BEGIN\n%s\nPad ::= BOOLEAN\nEND\n" % (
+                " { iso(1) lib(5) }" if p == "kinShort" else " { iso(1) lib(5) sub(2) }", "\n".join(vref(names[s], other(vals[s])) for s in refs))
         if neg == "unimported":
             mods["Lib"] = "Lib DEFINITIONS AUTOMATIC TAGS ::= BEGIN\n%s\nPad ::= BOOLEAN\nEND\n" % "\n".join(vref(names[s], vals[s]) for s in refs)
         if p == "rival":
@@ -164,7 +168,8 @@ def run(v):
     v.cov["exhaustive"] = True
     v.cov["rule"] = ("Refs.tla: 8 base definitions with literal slots (INTEGER range bounds incl. extensible, SIZE bounds of OCTET/BIT/IA5 strings and "
                      "SEQUENCE OF incl. extensible, DEFAULT values of kind integer / boolean / string) x EVERY subset of slots replaced by value "
-                     "references x placement {same module, sibling by name, sibling by name+OID, sibling by OID with a same-named decoy module} "
+                     "references x placement {same module, sibling by name, sibling by name+OID, sibling by OID with a same-named decoy module, rival importers, "
+                     "sibling by OID next to a module whose OID is a strict prefix / extension of it} "
                      "x EVERY load order, plus negative variants (reference missing, bound to a BOOLEAN, negative number as SIZE) per slot: %d "
                      "cases (one TLC state each). Expected: canonical model of the main module identical to the literal spelling, or a resolve "
                      "error for the negatives. Non-trivial = cases with at least one reference." % len(cases))
